@@ -219,16 +219,23 @@ fn one_matrix(names: &[String], cells: &[f64], ultrametric: bool, q: &mut Q, rep
 
 /// pseudo scale exponent: no scaling, zeros replaced by -0.0
 const NEG_ZERO: i32 = i32::MIN;
+/// pseudo scale exponent: the crate sees the integers divided by 10 — decimal distances as they come out of a file, NOT
+/// exactly representable, so the size-weighted averages round; ties between them are where a rounded average can fall an ulp
+/// below an earlier merge height.  Oracles on the real result only (the model's exact arithmetic is no reference for rounding).
+const TENTHS: i32 = i32::MIN + 1;
 
 /// `cells` are integers; the crate sees them multiplied by 2^scale_exp (exact), the model and the definitional
 /// clustering see the integers, and every length / height is compared after the same exact scaling: magnitudes far from 1
 /// (1e-24, 1e+60) must not change a single decision
 fn one_matrix_scaled(names: &[String], cells: &[f64], ultrametric: bool, q: &mut Q, rep: &mut Report, label: &str, scale_exp: i32) {
     let neg_zero = scale_exp == NEG_ZERO;
-    let scale_exp = if neg_zero { 0 } else { scale_exp };
-    let scale = 2f64.powi(scale_exp);
+    let tenths = scale_exp == TENTHS;
+    let scale_exp = if neg_zero || tenths { 0 } else { scale_exp };
+    let scale = if tenths { 0.1 } else { 2f64.powi(scale_exp) };
+    let _ = scale;
     let int_cells = cells;
-    let scaled: Vec<f64> = cells.iter().map(|v| if neg_zero && *v == 0.0 { -0.0 } else { v * scale }).collect();
+    // tenths: the correctly rounded quotient k/10 is what the decimal text "0.7" parses to (k x 0.1 is a different number)
+    let scaled: Vec<f64> = cells.iter().map(|v| if neg_zero && *v == 0.0 { -0.0 } else if tenths { v / 10.0 } else { v * scale }).collect();
     if neg_zero {
         rep.count("zeros_written_as_negative_zero");
     }
@@ -237,6 +244,8 @@ fn one_matrix_scaled(names: &[String], cells: &[f64], ultrametric: bool, q: &mut
     let n = names.len();
     let req = format!("up.run\t{}\t{}", if names.is_empty() { "_".to_string() } else { names.iter().map(|x| hex(x)).collect::<Vec<_>>().join(",") },
         if int_cells.is_empty() { "_".to_string() } else { int_cells.iter().map(|v| format!("{}", *v as i64)).collect::<Vec<_>>().join(" ") });
+    // the oracles' replay line carries the factor in the decimal stream
+    let req = if tenths { format!("{req}\tdiv10") } else { req };
     let req_ctx = if neg_zero { format!("{req}\t(real matrix: every zero written as -0.0)") } else if scale_exp == 0 { req.clone() } else { format!("{req}\t(real matrix = these integers x 2^{scale_exp})") };
     rep.case(&req_ctx, n >= 3);
     if scale_exp != 0 {
@@ -280,7 +289,9 @@ fn one_matrix_scaled(names: &[String], cells: &[f64], ultrametric: bool, q: &mut
             for k in r.kids.iter() {
                 match &k.len {
                     None => *bad = Some("missing-length"),
-                    Some((l, _)) if *l < 0.0 && *l < -1e-9 * SCALE.with(|s| s.get()) => *bad = Some("negative-branch-length"),
+                    // "non-negative branch lengths" has no tolerance: -5.6e-17 is a negative length (a downstream square root, a
+                    // logarithm or a strict reader rejects it); -0.0 is a zero
+                    Some((l, _)) if *l < 0.0 => *bad = Some("negative-branch-length"),
                     _ => {}
                 }
                 walk(k, bad);
@@ -337,6 +348,10 @@ fn one_matrix_scaled(names: &[String], cells: &[f64], ultrametric: bool, q: &mut
             }
             rep.count("ultrametric_inputs");
         }
+    }
+    if tenths {
+        rep.count("decimal_matrices_judged_by_the_oracles_only");
+        return;
     }
     q.reqs.push(req);
     q.real.push(real);
@@ -435,6 +450,15 @@ pub fn run(thorough: bool, seed: u64, driver: &str, rep: &mut Report) {
         Random { seed: u64, count: usize },
     }
     let mut rng = Rng::new(seed);
+    // corpus (always first): decimal ties whose size-weighted average is rounded an ulp BELOW an earlier merge height — the
+    // unrepaired crate returned a branch of -5.55e-17 here (found by the decimal stream, see known_findings.json)
+    {
+        let mut q = Q { reqs: vec![], real: vec![], scale: vec![] };
+        for (n, cells) in [(4usize, vec![1.0, 7.0, 7.0, 7.0, 7.0, 7.0]), (4, vec![3.0, 7.0, 7.0, 7.0, 7.0, 7.0]), (5, vec![1.0, 3.0, 3.0, 3.0, 3.0, 3.0, 3.0, 3.0, 3.0, 3.0]), (4, vec![1.0, 9.0, 9.0, 9.0, 9.0, 9.0])] {
+            let names: Vec<String> = (0..n).map(|i| format!("c{i}")).collect();
+            one_matrix_scaled(&names, &cells, false, &mut q, rep, "corpus-decimal-ties", TENTHS);
+        }
+    }
     let mut jobs = vec![Job::Exhaustive { n: 2, maxv: 4 }, Job::Exhaustive { n: 3, maxv: if thorough { 5 } else { 4 } }, Job::Exhaustive { n: 4, maxv: if thorough { 3 } else { 2 } }];
     if thorough {
         jobs.push(Job::Exhaustive { n: 5, maxv: 1 });
@@ -481,6 +505,13 @@ pub fn run(thorough: bool, seed: u64, driver: &str, rep: &mut Report) {
                             let ultra = i % 3 == 0;
                             let cells: Vec<f64> = if ultra { ultrametric(&mut rng, n) } else if i % 3 == 1 { (0..tri(n)).map(|_| rng.range(1, 1_000_000) as f64).collect() } else { (0..tri(n)).map(|_| rng.range(0, 6) as f64).collect() };
                             one_matrix_scaled(&names, &cells, ultra, &mut q, rep, "scaled", scale_exp);
+                            continue;
+                        }
+                        // decimal distances with many ties (tenths): every average is rounded
+                        if i % 6 == 5 {
+                            let hi = *rng.pick(&[3usize, 7, 9, 12]);
+                            let cells: Vec<f64> = (0..tri(n)).map(|_| rng.range(1, hi) as f64).collect();
+                            one_matrix_scaled(&names, &cells, false, &mut q, rep, "decimal-with-ties", TENTHS);
                             continue;
                         }
                         match i % 3 {
